@@ -461,6 +461,11 @@ impl OsIpcSender {
         let name = CString::new(name).unwrap();
         unsafe {
             let fd = libc::socket(libc::AF_UNIX, SOCK_SEQPACKET | SOCK_FLAGS, 0);
+            if fd < 0 {
+                return Err(UnixError::last());
+            }
+            // Owns the socket from here on, so it gets closed if connecting fails.
+            let sender = OsIpcSender::from_fd(fd);
             let (sockaddr, len) = new_sockaddr_un(name.as_ptr());
             if libc::connect(
                 fd,
@@ -471,7 +476,7 @@ impl OsIpcSender {
                 return Err(UnixError::last());
             }
 
-            Ok(OsIpcSender::from_fd(fd))
+            Ok(sender)
         }
     }
 }
@@ -682,8 +687,23 @@ impl OsIpcOneShotServer {
     pub fn new() -> Result<(OsIpcOneShotServer, String), UnixError> {
         unsafe {
             let fd = libc::socket(libc::AF_UNIX, SOCK_SEQPACKET | SOCK_FLAGS, 0);
-            let temp_dir = Builder::new().tempdir()?;
-            let socket_path = temp_dir.path().join("socket");
+            if fd < 0 {
+                return Err(UnixError::last());
+            }
+            let temp_dir = match Builder::new().tempdir() {
+                Ok(temp_dir) => temp_dir,
+                Err(error) => {
+                    libc::close(fd);
+                    return Err(error.into());
+                },
+            };
+            // Owns the socket and the directory from here on,
+            // so both get cleaned up if setting up the server fails.
+            let server = OsIpcOneShotServer {
+                fd,
+                _temp_dir: temp_dir,
+            };
+            let socket_path = server._temp_dir.path().join("socket");
             let path_string = socket_path.to_str().unwrap();
 
             let path_c_string = CString::new(path_string).unwrap();
@@ -701,13 +721,7 @@ impl OsIpcOneShotServer {
                 return Err(UnixError::last());
             }
 
-            Ok((
-                OsIpcOneShotServer {
-                    fd,
-                    _temp_dir: temp_dir,
-                },
-                path_string.to_string(),
-            ))
+            Ok((server, path_string.to_string()))
         }
     }
 
@@ -730,9 +744,10 @@ impl OsIpcOneShotServer {
             if client_fd < 0 {
                 return Err(UnixError::last());
             }
+            // Owns the socket from here on, so it gets closed if anything below fails.
+            let receiver = OsIpcReceiver::from_fd(client_fd);
             make_socket_lingering(client_fd)?;
 
-            let receiver = OsIpcReceiver::from_fd(client_fd);
             let (data, channels, shared_memory_regions) = receiver.recv()?;
             Ok((receiver, data, channels, shared_memory_regions))
         }
